@@ -58,6 +58,8 @@ Definition P_TREASURY_C : N := 2020.     (* treasury_contribution += *)
 Definition P_ROUTING_ADD : N := 2021.    (* router1_payout + router2_payout *)
 Definition P_FEE_TX_ORD : N := 2022.     (* total_number_of_non_fee_transactions + 1 *)
 
+Definition sumN (l : list N) : N := fold_right N.add 0 l.
+
 (* ---------- arithmetic modes ---------- *)
 Inductive amode := MInf | M64 (dbg : bool).
 
@@ -188,7 +190,8 @@ Record cv := mkCv {
                                    (before the cap adjustment: the hash is not recomputed) *)
   c_avg_nolan : N;
   c_dust_fees : N;              (* total_fees_paid_by_nonrebroadcast_atr_transactions *)
-  c_fee_tx : option tx          (* cv.fee_transaction *)
+  c_fee_tx : option tx;         (* cv.fee_transaction *)
+  c_cap : bool                  (* ghost: the 5 % cap branch was taken *)
 }.
 
 (* ---------- part 1: the sweep over the block's transactions ---------- *)
@@ -389,11 +392,11 @@ Section Model.
 
   Record atr_out := mkAtrOut {
     r_nolan : N; r_slips : N; r_payout : N; r_fees : N; r_dust : N;
-    r_rbs : list tx; r_hash : list tx; r_cum : option N
+    r_rbs : list tx; r_hash : list tx; r_cum : option N; r_cap : bool
   }.
 
   Definition atr_section (i : cv_in) (fees_new : N) : res atr_out :=
-    let none := Ok (mkAtrOut 0 0 0 0 0 [] [] None) in
+    let none := Ok (mkAtrOut 0 0 0 0 0 [] [] None false) in
     do gp1 <- add m P_ID_SUB gp 1;
     if i_id i <=? gp1 then none else
     match i_expiring i with
@@ -416,9 +419,9 @@ Section Model.
            do adj <- add m P_MULT_ADD 1 adjm;
            do capped_rbs <- cap_loop m adj 0 rbs;
            Ok (mkAtrOut (a_nolan a) (a_slips a) (fst capped_rbs) 0 (a_dust a)
-                        (snd capped_rbs) rbs (Some cum)))
+                        (snd capped_rbs) rbs (Some cum) true))
         else
-          Ok (mkAtrOut (a_nolan a) (a_slips a) (a_payout a) (a_fees a) (a_dust a) rbs rbs (Some cum))
+          Ok (mkAtrOut (a_nolan a) (a_slips a) (a_payout a) (a_fees a) (a_dust a) rbs rbs (Some cum) false)
     end.
 
   Record pay_out := mkPay {
@@ -520,5 +523,5 @@ Section Model.
              (p_routing p) (p_mining p) (p_treasury p) (p_graveyard p) (r_payout a)
              avg_pay_routing avg_pay_mining avg_pay_treasury avg_pay_graveyard avg_pay_atr
              avg_fpb fpb burnfee difficulty
-             (r_slips a) (r_nolan a) (r_rbs a) (r_hash a) avg_nolan (r_dust a) (p_fee_tx p)).
+             (r_slips a) (r_nolan a) (r_rbs a) (r_hash a) avg_nolan (r_dust a) (p_fee_tx p) (r_cap a)).
 End Model.
